@@ -11,3 +11,8 @@ claim("C15", "type-resolved AST rules over the generators: map-range order disci
       "Structural: every range over a Go map must have an order-insensitive body (collect-then-sort / set building / constant reduction); no clock, randomness, environment, file-system, runtime or unordered-iteration API, goroutine, select or channel op anywhere in the generator packages; no package variable, generator field or Generate-scoped variable is written on the per-file path; the OpenAPI generator is built per service; no address-valued argument is printed. These are necessary conditions for byte-identical, order-independent output; they do not cover nondeterminism inside libopenapi/yaml.",
       "Trusts that protogen presents descriptors in file order and that libopenapi/yaml render ordered maps in insertion order.",
       "DESIGN.md 5/C15")
+
+claim("C12", "go/cfg must-pass over the caller chain + error-propagation idiom check + abstract evaluation of validator predicates over the finite field-shape domain",
+      "Structural: every rule function lies on every success path from each Go plugin's Generate() (must-pass through the chain of callers, loops over descriptor collections transparent), walkers recurse into nested messages, every error from a rule is propagated at every call site, each field-level predicate is evaluated for all 90 field shapes x all remaining annotation decisions by walking its syntax tree and compared with the documented table in both directions, and no plugin other than the documented ones can refuse a definition. Message-level predicates (collision maps, unwrap counting, HTTP config rules) are covered for wiring and propagation only.",
+      "Oracle tables transcribed from proto/sebuf/http/annotations.proto comments and the property statement; trusts protogen's Run() error contract and Field.Oneof/Message facts.",
+      "DESIGN.md 5/C12")
